@@ -1,9 +1,37 @@
 import SoundeventModel.Ops.Common
+import SoundeventModel.Ops.C09
 namespace SE.Ops.C08
-open Lean SE
+open Lean SE SE.Metrics SE.Detection SE.Ops.C09
 
-def handle (op : String) (_a : Json) : Except String Json := do
+def handle (op : String) (a : Json) : Except String Json := do
   match op with
+  | "detection" =>
+    -- `sound_event_detection` end to end (the matcher's answer per evaluated clip is part of the request)
+    let C ← fldNat a "C"
+    return exceptJ evalJ (soundEventDetection C (← getDetPreds (← fld a "predictions")) (← getSEAnns (← fld a "annotations")))
+  | "eval_clip" =>
+    -- `evaluate_clip` on one clip: the matches and the items they contribute, in the code's order
+    let C ← fldNat a "C"
+    let preds ← (← fldArr a "preds").mapM getSEPred
+    let anns ← (← fldArr a "anns").mapM getSEAnn
+    let ms ← getMatcher (← fld a "matcher")
+    match evalClip C preds anns ms with
+    | none => return raiseJ .key
+    | some es => return valJ (Json.mkObj [("entries", arrJ (es.map entryJ)), ("score", ratJ (clipScore es))])
+  | "matcher_cover" =>
+    -- the contract of the matcher the theorems assume (C08_matcher_contract_checked)
+    return boolJ (matcherCoverB (← fldNat a "n") (← fldNat a "m") (← getMatcher (← fld a "matcher")))
+  | "holds_cover" =>
+    -- executable statement of the cover property on the matches the code returned (C08_holds_cover_sound)
+    let ms ← (← fldArr a "matches").mapM (fun j => do
+      match ← getArr j with
+      | [s, t] => return (← getOptNat s, ← getOptNat t)
+      | _ => .error "match: expected [src, tgt]")
+    return boolJ (holdsCoverB (← fldNat a "n_pred") (← fldNat a "n_ann") ms)
+  | "pair_clips" =>
+    let ps ← getNatList (← fld a "predictions")
+    let as ← getNatList (← fld a "annotations")
+    return natsJ ((Detection.pairClips (ps.map (fun k => (k, ()))) (as.map (fun k => (k, ())))).map (·.1))
   | _ => .error s!"C08: unknown op {op}"
 
 end SE.Ops.C08
